@@ -12,7 +12,12 @@ parcpy / parSetZero chunk arithmetic (ParChunks) covers 0..size-1 exactly once f
 Conformance: the generated driver calls every defined overload (pinned to its declared signature) >= 40 (quick) / 400
 (thorough) times with operands in exact-extent arenas in front of inaccessible pages (8-byte aligned only, except the `_a`
 helpers), strides {0,1,2,3,5,64,517,4099}, permuted / repeating / spread index lists, operand words in every representation;
-two runs per case with different garbage in every undesignated cell and complementary result pre-fills.  Trace_Layout17 accepts
+two runs per case with different garbage in every undesignated cell and complementary result pre-fills; plus, for every row whose
+shapes allow it, calls in the alias modes of Layout.tla (broadcast scalar an lvalue inside the result array / inside the other
+operand's array; result in place = operand a / operand b, same pointer or register variable and same stride / index list),
+where Expected is evaluated on the operand values held before the call.  The call sites are pinned to the declared signatures;
+if a tree does not compile that way the driver is rebuilt with plain overload resolution (LAX_SIG), and rows that still do not
+build are dropped one by one and listed.  Trace_Layout17 accepts
 an event iff the designated cells are the ones Addr gives, every lane equals Expected modulo p (copies: the same word), the
 changed cells are exactly the write footprint, the second run agrees and nothing else was written; a crash is never accepted.
 parcpy / parSetZero: sizes 0..64 (thorough: ..200 and larger) x thread arguments {-5,0,1,2,3,7,64,1000}: exactly the cells the
@@ -25,7 +30,7 @@ import gen_layout17 as G
 
 LEVEL_NOTE = ('TLC decides the layout algebra and the chunk arithmetic at small bounds; the table itself is a reviewed reading of the '
               'declarations (it is the specification, not derived from the bodies); conformance binds only the executed calls '
-              '(>= 40 / 400 per overload); in-place aliasing of result and operand arrays is not part of the property and not exercised.')
+              '(>= 40 / 400 per overload, + 12 / 100 per allowed alias mode); partial overlaps with different address maps are outside the property.')
 P = vlib.P
 S_IN = [0, 1, 3, 517, 2, 5, 64]
 S_OUT = [1, 3, 517, 2, 5, 1, 64, 0, 3]
@@ -47,7 +52,17 @@ def gen_cases(table, variant, tier, seed, ci0):
             ima = j % 6; imb = (5 * j + 1) % 6; imc = (j + 3) % 6
             pad = (3 * j + j // 8) % 8
             ci += 1
-            out.append((ci, '%d C %s 0x%x %d %d %d %d %d %d %d %d' % (ci, r['id'], rng.next(), sa, sb, sc, ima, imb, imc, pad, j % 5)))
+            out.append((ci, '%d C %s 0x%x %d %d %d %d %d %d %d %d none 0' % (ci, r['id'], rng.next(), sa, sb, sc, ima, imb, imc, pad, j % 5)))
+        # aliasing modes the shapes of the row allow: scalar inside the result / the other operand's array, result in place
+        for m in G.alias_modes(r):
+            for j in range(12 if tier == 'quick' else 100):
+                sc = [1, 3, 2, 5, 517, 64][j % 6]                        # in place: lanes stay pairwise distinct
+                if m == 'sc' and j % 6 == 5:
+                    sc = 0
+                sa = S_IN[(2 * j + 1) % 7]; sb = S_IN[(3 * j + 2) % 7]
+                ci += 1
+                out.append((ci, '%d C %s 0x%x %d %d %d %d %d %d %d %d %s %d' % (ci, r['id'], rng.next(), sa, sb, sc, j % 6, (5 * j + 1) % 6, (j + 3) % 6,
+                                                                            (3 * j + 1) % 8, j % 5, m, j % r['L'])))
     return out
 
 
@@ -92,6 +107,44 @@ def explain(rec, rows):
         return 'rejected by Trace_Layout17 (%s)' % ex
 
 
+def build_variant(ck, table, v, wd):
+    """-> (exe, mode, dropped rows).  1. call sites pinned to the declared signatures; 2. if that does not build: overload
+    resolution instead (LAX_SIG; the argument expressions have exactly the declared types); 3. if that does not build either:
+    every row as a translation unit of its own, the rows that do not build are dropped and reported."""
+    def gdir(inc, lax):
+        cfg = G.gen_cfg(lax)
+        d = os.path.join(wd, 'gen_%s' % hashlib.sha256((inc + cfg).encode()).hexdigest()[:16])
+        os.makedirs(d, exist_ok=True)
+        open(os.path.join(d, 'layout17_rows.inc'), 'w').write(inc)
+        open(os.path.join(d, 'layout17_cfg.inc'), 'w').write(cfg)
+        return d
+    inc = G.gen_inc(table, v)
+    try:
+        return build_driver('drv_layout17', v, ['-I' + gdir(inc, False)]), 'pinned', []
+    except vlib.BuildError as e1:
+        first = [ln for ln in str(e1).split('\n') if 'error' in ln][:2]
+        ck.note('build (%s): the call sites pinned to the declared signatures do not compile (%s); rebuilding with LAX_SIG (plain overload resolution)' % (v, ' | '.join(x.strip()[:200] for x in first)))
+    try:
+        return build_driver('drv_layout17', v, ['-I' + gdir(inc, True)]), 'lax', []
+    except vlib.BuildError as e2:
+        ck.note('build (%s): the LAX_SIG build fails too; building every row on its own to find the rows that do not build' % v)
+    ids = [r['id'] for r in table if r['variant'] == v and r['defined']]
+
+    def one(i):
+        try:
+            build_driver('drv_layout17', v, ['-I' + gdir(G.gen_inc(table, v, only=[i]), True)])
+            return i, None
+        except vlib.BuildError as e:
+            why = [ln.strip() for ln in str(e).split('\n') if 'error' in ln or 'undefined reference' in ln]
+            return i, (why[0][:300] if why else str(e)[-300:])
+    vlib.build_lib(v)
+    with ThreadPoolExecutor(max_workers=8) as ex:
+        res = list(ex.map(one, ids))
+    bad = [(i, why) for i, why in res if why]
+    good = [i for i, why in res if not why]
+    return build_driver('drv_layout17', v, ['-I' + gdir(G.gen_inc(table, v, only=good), True)]), 'lax, rows dropped', bad
+
+
 def run_driver(exe, lines, wd, tag):
     cpath = os.path.join(wd, 'cases_%s.txt' % tag); tpath = os.path.join(wd, 'trace_%s.ndjson' % tag)
     open(cpath, 'w').write('\n'.join(lines) + '\n')
@@ -103,7 +156,7 @@ def run(tier, seed, replay=None):
     ck = Check('C17', tier, seed)
     wd = workdir('C17')
     ck.assumptions += ['tools/overloads17.json is a reviewed reading of the declarations and naming scheme; it is the specification of the API',
-                       'result arrays do not overlap operand arrays (aliasing is not part of the property)',
+                       'result and operands either are disjoint or overlap in one of the alias modes of Layout.tla (scalar inside an array, result in place with the same address map); other partial overlaps are not exercised',
                        'where a stride of 0 or a repeating index list maps several lanes to one result cell, the cell may hold the result of any of them']
     table = G.load_table()
     rows = {r['id']: r for r in table}
@@ -113,13 +166,6 @@ def run(tier, seed, replay=None):
     if not os.path.exists(committed) or open(committed).read() != tla:
         ck.note('spec/Overloads17.tla is not the module generated from tools/overloads17.json (run tools/gen_layout17.py gen spec); the generated one is used')
     open(os.path.join(wd, 'Overloads17.tla'), 'w').write(tla)
-    gdirs = {}
-    for v in ('avx2', 'avx512'):
-        inc = G.gen_inc(table, v)
-        d = os.path.join(wd, 'gen_%s' % hashlib.sha256(inc.encode()).hexdigest()[:16])
-        os.makedirs(d, exist_ok=True)
-        open(os.path.join(d, 'layout17_rows.inc'), 'w').write(inc)
-        gdirs[v] = d
     st = G.check(vlib.REPO, table)
     for k, msg in (('no_row', 'declared in goldilocks_base_field.hpp but not in the table (not exercised)'), ('no_declaration', 'table row without a declaration in this tree'),
                    ('table_says_undefined_but_defined', 'listed as undefined in the table but defined in this tree (not exercised; re-draft the table)')):
@@ -132,8 +178,20 @@ def run(tier, seed, replay=None):
     # ---- model phase and builds side by side
     with ThreadPoolExecutor(max_workers=3) as ex:
         fm = None if replay else ex.submit(tlc, wd, 'MC_Layout', 'MC_Layout.cfg', 8, None, 1500)
-        fb = {v: ex.submit(build_driver, 'drv_layout17', v, ['-I' + gdirs[v]]) for v in variants}
-        exes = {v: f.result() for v, f in fb.items()}
+        fb = {v: ex.submit(build_variant, ck, table, v, wd) for v in variants}
+        built = {v: f.result() for v, f in fb.items()}
+        exes = {v: b[0] for v, b in built.items()}
+        ck.cov['build_mode'] = {v: b[1] for v, b in built.items()}
+        dropped = set()
+        for v, b in built.items():
+            for i, why in b[2]:
+                dropped.add(i)
+                not_ex.append(dict(id=i, decl=rows[i]['decl'], reason='does not build in this tree: ' + why))
+        if dropped:
+            ck.note('rows dropped because they do not build: %s' % ', '.join(sorted(dropped)))
+            table_run = [r for r in table if r['id'] not in dropped]
+        else:
+            table_run = table
         if fm:
             r = fm.result()
             ck.add_tlc(r, 'MC_Layout: descriptor algebra (all kinds, strides {0,1,2,3,5}, all 4-lane index lists over 0..5), %d table rows well-formed, parcpy chunk arithmetic sizes 0..12 x threads -2..14' % len(table))
@@ -149,7 +207,7 @@ def run(tier, seed, replay=None):
     else:
         ci = 0
         for v in variants:
-            per[v] = gen_cases(table, v, tier, seed, ci); ci = per[v][-1][0]
+            per[v] = gen_cases(table_run, v, tier, seed, ci); ci = per[v][-1][0]
         per['avx2'] += gen_par(tier, seed, ci)
     byci = {}
     traces = []
@@ -193,10 +251,15 @@ def run(tier, seed, replay=None):
         else:
             ck.note('rejected record of %s not reproduced on re-run (case %s)' % (cls, line))
     # ---- coverage
-    cnt = {}
+    cnt = {}; acnt = {}
     for ln in open(tpath):
         if ln.startswith('{"e":"call"') or ln.startswith('{"e":"crash"'):
-            i = json.loads(ln).get('id'); cnt[i] = cnt.get(i, 0) + 1
+            j = json.loads(ln)
+            i = j.get('id'); cnt[i] = cnt.get(i, 0) + 1
+            if j.get('alias', 'none') != 'none':
+                acnt[j['alias']] = acnt.get(j['alias'], 0) + 1
+    ck.cov['alias_mode_calls'] = acnt
+    ck.cov['alias_mode_rows'] = {m: len([r for r in table if m in G.alias_modes(r) and cnt.get(r['id'])]) for m in ('sc', 'sa', 'ca', 'cb')}
     fam = {}
     for r in table:
         k = r['family'] + ('' if r['section'] == 'expr' else '.loadstore')
